@@ -10,5 +10,5 @@ for needs in "$2" "$3"; do
   if python3 tools/seed_import.py $p $k $id "$needs" > /tmp/import.$id.log 2>&1; then ids="$ids $id"; echo "imported $id"; else echo "IMPORT FAILED $id"; tail -15 /tmp/import.$id.log; n=$((n-1)); fi
   k=$((k+1))
 done
-[ -n "$ids" ] && python3 tools/mut.py seeded $ids | tee -a tools/logs/round6.log
+[ -n "$ids" ] && python3 tools/mut.py seeded $ids | tee -a tools/logs/round7.log
 git -C /repo status --short | head -3
